@@ -24,6 +24,8 @@ def pin_environment():
     sys.path.insert(0, REPO)
     for m in [k for k in sys.modules if k == "cfinterface" or k.startswith("cfinterface.")]:
         del sys.modules[m]
+    import warnings
+    warnings.simplefilter("ignore")
     import cfinterface  # noqa
     empty = os.path.join(WORK, "cwd")
     os.makedirs(empty, exist_ok=True)
